@@ -122,7 +122,8 @@ mod verif_c09 {
                 assert!(clock.fractional() < 250);
                 assert!(within_drift(clock), "clock never runs more than the drift ahead of the wall clock");
                 assert!(msg.node() != before.node());
-                assert!(ret.node() == msg.node() && time_of(ret) == time_of(clock) && ret.counter() == clock.counter());
+                let same = ret.node() == msg.node() && time_of(ret) == time_of(clock) && ret.counter() == clock.counter();
+                assert!(same, "recv returns the clock's new time and counter with the sender's node id");
                 kani::cover!(time_of(clock) == time_of(msg) && time_of(msg) > time_of(before), "remote time adopted");
                 kani::cover!(time_of(clock) == time_of(before) && time_of(before) == time_of(msg), "three-way tie: max counter + 1");
                 kani::cover!(clock.counter() == 0, "wall clock newest: counter reset");
